@@ -116,7 +116,7 @@ pub fn c07_sparse_n3_m4_w2() {
 }
 
 // Digraphs on 3 vertices with 0..=5 arcs (every residue mod 4 of the 4x-unrolled loop), weights -8..=8, every source.
-// @verif prop=C07 tier=thorough fl=f2 role=sparse/small-weights t=3600 mem=24
+// @verif prop=C07 tier=exp fl=f2 role=sparse/small-weights t=3600 mem=24
 #[cfg_attr(kani, kani::proof)]
 #[cfg_attr(kani, kani::unwind(7))]
 pub fn c07_sparse_n3_m5() {
@@ -124,7 +124,7 @@ pub fn c07_sparse_n3_m5() {
 }
 
 // All digraphs on 3 vertices (0..=6 arcs), weights -8..=8, every source.
-// @verif prop=C07 tier=thorough fl=f2 role=sparse/small-weights t=3600 mem=24
+// @verif prop=C07 tier=exp fl=f2 role=sparse/small-weights t=3600 mem=24
 #[cfg_attr(kani, kani::proof)]
 #[cfg_attr(kani, kani::unwind(8))]
 pub fn c07_sparse_n3_m6() {
@@ -155,7 +155,7 @@ pub fn c07_repr_n3_m4() {
     repr::<3, 4>(-8, 8);
 }
 
-// @verif prop=C07 tier=thorough fl=f2 role=sparse/small-weights t=3600 mem=24
+// @verif prop=C07 tier=exp fl=f2 role=sparse/small-weights t=3600 mem=24
 #[cfg_attr(kani, kani::proof)]
 #[cfg_attr(kani, kani::unwind(10))]
 pub fn c07_sparse_n4_m8() {
